@@ -3,6 +3,7 @@ package props
 import (
 	"fmt"
 	"runtime"
+	"strings"
 	"sync/atomic"
 	"time"
 
@@ -160,7 +161,11 @@ func c05Execute(ctx *Ctx, p *conc.Program, mode conc.Mode, label string) c05Outc
 		ctx.Stats["c05.cold-file-programs"]++
 	}
 	if f != nil && len(f.Violations) > 0 {
-		fs = append(fs, conc.Finding{Sig: "C05/file-rule/" + f.Violations[0][:minInt(len(f.Violations[0]), 40)], Detail: f.Violations[0]})
+		sig := f.Violations[0]
+		if i := strings.Index(sig, ": "); i > 0 {
+			sig = sig[:i]
+		}
+		fs = append(fs, conc.Finding{Sig: "C05/file-rule/" + sig, Detail: f.Violations[0]})
 	}
 	if mode.Sched != nil {
 		for k, v := range mode.Sched.PointHits {
